@@ -126,9 +126,10 @@ class CSSRule(css_parser.util.Base2):
                           "inside any other rules, this returns None.")
 
     def _getParentStyleSheet(self):
-        # rules contained in other rules (@media) use that rules parent
+        # rules contained in other rules (@media, @page) use that rule's sheet,
+        # which is itself derived when the containing rule is nested too
         if (self.parentRule):
-            return self.parentRule._parentStyleSheet
+            return self.parentRule.parentStyleSheet
         else:
             return self._parentStyleSheet
 
